@@ -71,8 +71,19 @@ fn check_invariant(m: &Model, fails: &mut Vec<(String, String)>) {
     check_invariant_with(m, fails, &HashSet::new())
 }
 
-/// `cse_children`: the positions that some accepted fixed-range (CSE) array entry of the history
-/// covered as a non-anchor cell of its range (they were overwritten by that entry)
+/// the signature of an invariant / exactness failure: when one of the cells involved was covered by
+/// the range of an accepted fixed-range (CSE) array entry of the history, the failure belongs to the
+/// mechanism of finding F31b (the CSE writer overwrites its declared range whatever it holds)
+fn sig_for(base: &str, cover: &HashSet<(i32, i32)>, cells: &[(i32, i32)]) -> String {
+    if cells.iter().any(|c| cover.contains(c)) {
+        format!("{base}:cse-array-overlap")
+    } else {
+        base.to_string()
+    }
+}
+
+/// `cse_children`: the positions covered by the range of some accepted fixed-range (CSE) array entry
+/// of the history
 fn check_invariant_with(m: &Model, fails: &mut Vec<(String, String)>, cse_children: &HashSet<(i32, i32)>) {
     for ((r, c), cell) in sorted_cells(m) {
         match cell {
@@ -81,7 +92,7 @@ fn check_invariant_with(m: &Model, fails: &mut Vec<(String, String)>, cse_childr
                     let inside = r >= a.0 && r < a.0 + h && c >= a.1 && c < a.1 + w && (r, c) != a;
                     if !inside {
                         fails.push((
-                            "c31:inv:stale-spill-outside-block".into(),
+                            sig_for("c31:inv:stale-spill-outside-block", cse_children, &[(r, c), a]),
                             format!("{} is a spill cell of {} whose range is {w}x{h}", a1(r, c), a1(a.0, a.1)),
                         ));
                     }
@@ -95,12 +106,12 @@ fn check_invariant_with(m: &Model, fails: &mut Vec<(String, String)>, cse_childr
                         }
                         _ => false,
                     };
-                    let sig = if under_cse || cse_children.contains(&a) {
-                        "c31:inv:spill-without-anchor:anchor-overwritten-by-cse-array"
+                    let sig = if under_cse {
+                        "c31:inv:spill-without-anchor:cse-array-overlap".to_string()
                     } else {
-                        "c31:inv:spill-without-anchor"
+                        sig_for("c31:inv:spill-without-anchor", cse_children, &[(r, c), a])
                     };
-                    fails.push((sig.into(), format!("{} is a spill cell of {} which is not an array formula", a1(r, c), a1(a.0, a.1))));
+                    fails.push((sig, format!("{} is a spill cell of {} which is not an array formula", a1(r, c), a1(a.0, a.1))));
                 }
             },
             Cell::ArrayFormula { r: (w, h), kind: ArrayKind::Dynamic, .. } => {
@@ -116,7 +127,7 @@ fn check_invariant_with(m: &Model, fails: &mut Vec<(String, String)>, cse_childr
                         match cell_at(m, i, j) {
                             Some(Cell::SpillCell { a, .. }) if *a == (r, c) => {}
                             other => fails.push((
-                                "c31:inv:block-not-filled".into(),
+                                sig_for("c31:inv:block-not-filled", cse_children, &[(r, c), (i, j)]),
                                 format!("{} (range {w}x{h}) does not own {}: {:?}", a1(r, c), a1(i, j), other.map(kind_of)),
                             )),
                         }
@@ -148,6 +159,10 @@ fn same_value(a: &Result<CellValue, String>, b: &Result<CellValue, String>) -> b
 /// exactness: every spilled block holds, element by element, what the same formula gives when it
 /// is entered as a CSE array formula of that size at the same place in a copy of the workbook
 fn check_exact(m: &Model, fails: &mut Vec<(String, String)>) -> usize {
+    check_exact_with(m, fails, &HashSet::new())
+}
+
+fn check_exact_with(m: &Model, fails: &mut Vec<(String, String)>, cover: &HashSet<(i32, i32)>) -> usize {
     let mut n = 0;
     let bytes = m.to_bytes();
     for ((r, c), cell) in sorted_cells(m) {
@@ -174,7 +189,7 @@ fn check_exact(m: &Model, fails: &mut Vec<(String, String)>) -> usize {
                     let want = copy.get_cell_value_by_index(0, i, j);
                     if !same_value(&got, &want) {
                         fails.push((
-                            "c31:not-exact".into(),
+                            sig_for("c31:not-exact", cover, &[(r, c), (i, j)]),
                             format!("{} `{text}` spilled {w}x{h}: cell {} holds {:?}, element ({},{}) of the result is {:?}",
                                 a1(r, c), a1(i, j), got, i - r, j - c, want),
                         ));
@@ -299,9 +314,7 @@ fn eval_hist(req: &str) -> ImplOut {
                 } else {
                     for r in n(1)..n(1) + n(4) {
                         for c in n(2)..n(2) + n(3) {
-                            if (r, c) != (n(1), n(2)) {
-                                cse_children.insert((r, c));
-                            }
+                            cse_children.insert((r, c));
                         }
                     }
                 }
@@ -311,7 +324,7 @@ fn eval_hist(req: &str) -> ImplOut {
                 m.evaluate();
                 dumps.push(dump(&m));
                 check_invariant_with(&m, &mut fails, &cse_children);
-                check_exact(&m, &mut fails);
+                check_exact_with(&m, &mut fails, &cse_children);
                 check_stable(&m, &mut fails);
                 // #SPILL! exactly when the natural block is blocked or leaves the grid
                 if p.get(1).map(|x| *x != "-").unwrap_or(false) {
